@@ -60,7 +60,9 @@ def render(i, lib_path=None, modname=None):
 
 def main():
     chk = vf.Check("C13")
-    cases, res = vf.mc_cases(chk, "MC_C13", actions=["GenTraitVisibility", "ResolveProbe"], workers=4)
+    thorough = vf.tier() == "thorough"
+    cases, res = vf.mc_cases(chk, "MC_C13", cfg_edits=({"Deep = FALSE": "Deep = TRUE"} if thorough else None),
+                             actions=["GenTraitVisibility", "ResolveProbe"], workers=4)
     lib = vf.Crate(os.path.join(chk.work, "c13lib"), "c13lib", lib=True)
     ext = vf.Crate(os.path.join(chk.work, "c13ext"), "c13ext", deps=[f'c13lib = {{ path = "{os.path.join(chk.work, "c13lib")}" }}'], entrait=False)
     for c in cases:
@@ -106,14 +108,14 @@ def main():
             raise vf.ToolError(f"C13: cannot find the generated trait T in the expansion of case {cid}")
         o = {"compiled": d is None, "privacyonly": all(cd in PRIVACY for cd in codes) if d else True, "codes": codes,
              "vistext": vistext, "diag": [x["message"][:100] for x in (d or [])][:2]}
-        events.append({"case": cid, "l1": c["l1"], "obs": o, "pred": c["pred"], "predvis": ("pub(super)" if (i.get("via") == "inmod" and not i["vis"]) else "pub(in super::super)" if (i.get("via") == "inmod" and i["vis"] == "pub(super)") else i["vis"]).replace(" ", "").replace("crate::cases::p)", "crate::cases::" + ("cx" if i["loc"] == "other-crate" else "cy" if i["loc"] == "cousin" else "c") + cid + ")"), "cls": ""})
+        events.append({"case": cid, "l1": c["l1"], "obs": o, "pred": c["pred"], "predvis": ("pub(super)" if (i.get("via") == "inmod" and i["vis"] in ("", "pub(self)")) else "pub(in super::super)" if (i.get("via") == "inmod" and i["vis"] == "pub(super)") else i["vis"]).replace(" ", "").replace("crate::cases::p)", "crate::cases::" + ("cx" if i["loc"] == "other-crate" else "cy" if i["loc"] == "cousin" else "c") + cid + ")"), "cls": ""})
     bad, drift = vf.validate(chk, "Trace_C13", events)
     byid = {c["case"]: c for c in cases}
     ev = {e["case"]: e for e in events}
     chk.cov["evaluations"] = len(events)
     chk.cov["distinct_nontrivial"] = sum(1 for e in events if not e["obs"]["compiled"])
     chk.cov["positive_probes"] = sum(1 for e in events if e["obs"]["compiled"])
-    chk.cov["rule"] = ("requested visibility {none, pub, pub(crate), and for fn inputs pub(super), pub(in crate::cases), pub(in crate::cases::<the module of the case>)} x item visibility (for trait inputs: the visibility keyword written before the target trait's name) {none, pub, "
+    chk.cov["rule"] = (("thorough: also pub(self) / pub(in crate::cases) on modules, pub(super) / pub(in crate::cases) on entraited traits, and exporting invocations with every requested visibility; " if thorough else "") + "requested visibility {none, pub, pub(crate), and for fn inputs pub(super), pub(in crate::cases), pub(in crate::cases::<the module of the case>)} x item visibility (for trait inputs: the visibility keyword written before the target trait's name) {none, pub, "
                        "pub(crate)} x {fn, mod, trait (delegation-target trait)} x {plain, `export` option, entrait_export} (fn / mod, requests none and pub(crate)) x probe location {same module, child, sibling, parent, cousin (another module of the crate, outside the parent), other crate}; module inputs are probed through both names, the "
                        "re-export D::T and the trait itself D::m::T (from the locations that can name m); "
                        "all points replayed; non-trivial = negative probe (naming the trait must NOT compile)")
